@@ -109,9 +109,10 @@ func (df *DataFile) WriteMergeFinRecord(id FileID) error {
 	if df.closed {
 		return ErrClosed
 	}
-	data := make([]byte, 4)
-	binary.LittleEndian.PutUint32(data, id)
-	_, err := df.ReadWriter.Write(data)
+	// 与其他记录一致, 以 chunk 形式写入, 读取时才能通过校验
+	data := bytebufferpool.Get()
+	data.B = binary.LittleEndian.AppendUint32(data.B, id)
+	_, err := df.writeSingle(data)
 	return err
 }
 
@@ -282,7 +283,7 @@ func (df *DataFile) ReadMergeFinRecord() FileID {
 	buf := bytebufferpool.Get()
 	defer bytebufferpool.Put(buf)
 	err := df.readToBuf(0, 0, buf)
-	if err != nil {
+	if err != nil || buf.Len() < 4 {
 		return 0
 	}
 	value := binary.LittleEndian.Uint32(buf.Bytes())
